@@ -20,7 +20,7 @@ const (
 
 // SeqOp is one operation of a sequential history.
 type SeqOp struct {
-	K    string `json:"k"`              // put | sub | cache | release | close | default
+	K    string `json:"k"`              // put | sub | cache | release | close | default | subclosed
 	Tag  int    `json:"tag,omitempty"`  // put: tag of the envelope
 	C    int    `json:"c,omitempty"`    // sub: c-th free consumer slot; close: c-th subscribed consumer (mod their number)
 	Mask int    `json:"mask,omitempty"` // sub: predicate (set of accepted tags)
@@ -42,6 +42,7 @@ var seqKinds = []string{
 	"release",
 	"close", "close",
 	"default",
+	"subclosed",
 }
 
 func genSeqOp() *rapid.Generator[SeqOp] {
@@ -52,6 +53,8 @@ func genSeqOp() *rapid.Generator[SeqOp] {
 			op.Tag = rapid.IntRange(0, nTags-1).Draw(t, "tag")
 		case "sub":
 			op.C = rapid.IntRange(0, seqSlots-1).Draw(t, "c")
+			op.Mask = genMask(1).Draw(t, "mask")
+		case "subclosed":
 			op.Mask = genMask(1).Draw(t, "mask")
 		case "close":
 			op.C = rapid.IntRange(0, seqSlots-1).Draw(t, "c")
@@ -268,6 +271,23 @@ func runSeqBody(c SeqCase, o *h.Outcome) *h.Failure {
 				m.stats["sub:released-cached"]++
 			}
 			desc = fmt.Sprintf("sub #%d mask %06b", obj, mask)
+		case "subclosed":
+			// a consumer that is already closed tries to subscribe: the relay
+			// refuses (wire's own tests expect the error) and nothing changes -
+			// in particular cached envelopes stay for the first LIVE subscriber
+			mask := op.Mask & allMask
+			s := &sink{}
+			if err := s.Close(); err != nil {
+				return h.Failf("harness/close", "closing consumer: %v", err)
+			}
+			if err := relay.Subscribe(s, maskPred(mask)); err == nil {
+				return h.Failf("seq/closed-consumer-subscribed", "step %d: Subscribe of an already closed consumer returned nil", step)
+			}
+			if got := s.snapshot(); len(got) > 0 {
+				return h.Failf("seq/closed-consumer-got-envelopes", "step %d: a closed consumer whose Subscribe failed holds envelopes %s", step, short(got))
+			}
+			m.stats["sub:closed-consumer"]++
+			desc = fmt.Sprintf("subclosed mask %06b", mask)
 		case "close":
 			slot := pickSlot(slotObj[:], op.C, true)
 			if slot < 0 {
